@@ -2,6 +2,7 @@
 from niltype import Nil
 
 from d42.declaration import Schema
+from d42.substitution.errors import SubstitutionError
 from d42.declaration.types import DictSchema
 
 from .. import e2
@@ -107,6 +108,21 @@ def examine(t, s, v, tier, rng, want):
     v = cp(v)             # the oracles look at the value as it was given (a dict subclass with
     res = try_subst(s, given)   # __missing__ may be changed by a mere lookup)
     tcls = show(t)
+    # equivalent spellings must agree: `s % v` is substitute(s, v) (same result structure, or
+    # the same kind of failure), whatever the value
+    if "C12" in want:
+        try:
+            r2 = ("ok", s % cp(v))
+        except SubstitutionError:
+            r2 = ("suberr",)
+        except Exception as e:  # noqa: BLE001
+            r2 = ("exc", type(e).__name__)
+        same = (r2[0] == res[0]) and (res[0] != "exc" or r2[1] == res[1]) \
+            and (res[0] != "ok" or not isinstance(res[1], Schema) or not isinstance(r2[1], Schema)
+                 or fp(r2[1]) == fp(res[1]))
+        if not same:
+            out.append(("C12", f"percent-operator-differs-from-substitute|{tcls}|{tname(v)}",
+                        f"substitute: {res[0]} / %: {r2[0]}"))
     if res[0] == "exc":
         if "C12" in want:
             kind = tname(v) + ("|contains-int-over-4300-digits" if has_huge(v) else "")
